@@ -31,7 +31,10 @@ def tt(env, a, kind='f'):
     if env.symbolic:
         from symclif.shim_torch import T
         arr = np.asarray(a)
-        return T(arr.astype(object).copy() if arr.dtype != bool else arr.copy())
+        t = T(arr.astype(object).copy() if arr.dtype != bool else arr.copy())
+        if arr.dtype != bool and kind in ('f', 'i'):
+            t._dt = kind          # the replay builds float32 ('f') or int64 ('i') tensors: keep the stand-in's dtype class in step
+        return t
     import torch
     arr = np.asarray(a)
     if kind == 'b' or arr.dtype == bool:
@@ -76,7 +79,8 @@ def same(a, b):
     if isinstance(a, (bool, np.bool_)) or isinstance(b, (bool, np.bool_)) or (isinstance(a, SV) and a.kind == 'b') or (isinstance(b, SV) and b.kind == 'b'):
         return eq(to_bool(a) if not isinstance(a, (int, float, np.number)) or isinstance(a, (bool, np.bool_)) else compare('!=', a, 0),
                   to_bool(b) if not isinstance(b, (int, float, np.number)) or isinstance(b, (bool, np.bool_)) else compare('!=', b, 0))
-    if isinstance(a, (float, complex, np.floating, np.complexfloating)) or isinstance(b, (float, complex, np.floating, np.complexfloating)):
+    num = (int, float, complex, np.number)
+    if isinstance(a, num) and isinstance(b, num) and (isinstance(a, (float, complex, np.floating, np.complexfloating)) or isinstance(b, (float, complex, np.floating, np.complexfloating))):
         # concrete floating-point results (replays, witness validation): torchclifford computes coefficients in single
         # precision (complex64 default coefficients, 1j**p through a complex64 power: 1j**2 = -1-8.7e-08j), so the
         # numbers agree with pyclifford's float64 ones only to about 1e-7; the solver side compares exact values
@@ -286,7 +290,9 @@ def h_poly_ops(env, N, op):
         env.goal('same_' + nm, same(np.asarray(a) if isinstance(a, np.ndarray) else a, b))
 
 
-def h_map_ops(env, N, op):
+def h_map_ops(env, N, op, kind='f'):
+    """kind: dtype class of the torch tensors handed to torchclifford ('f' float32 as its own constructors build them,
+    'i' int64 as torch.tensor(<integer table>) gives)"""
     Sn, St = env.mod('stabilizer', 'pyclifford'), env.mod('stabilizer', 'torchclifford')
     mg = env.bits('map', (2 * N, 2 * N))
     mp = env.signs('map_sign', (2 * N,))
@@ -311,8 +317,24 @@ def h_map_ops(env, N, op):
         if op == 'roundtrip':
             R = m.to_state().to_map()
             return (R.gs, R.ps)
+        if op == 'compose_history':
+            # the operands are used again after the first product: (m o m2), then m o (m o m2), then m's own fields
+            other = Smod.CliffordMap(conv(m2), conv(p2))
+            R1 = m.compose(other)
+            R2 = m.compose(R1)
+            R3 = other.compose(m)
+            return (R1.gs, R1.ps, R2.gs, R2.ps, R3.gs, R3.ps, m.gs, m.ps, other.gs, other.ps)
+        if op == 'compose_operands':
+            other = Smod.CliffordMap(conv(m2), conv(p2))
+            R1 = m.compose(other)
+            return (R1.gs, R1.ps, m.gs, m.ps, other.gs, other.ps)
+        if op == 'inverse_history':
+            R1 = m.inverse()
+            R2 = m.compose(R1)
+            R3 = m.inverse()
+            return (R1.gs, R1.ps, R2.gs, R2.ps, R3.gs, R3.ps, m.gs, m.ps)
     rn = env.run(lambda: run(Sn, lambda a: a.copy()))
-    rt = env.run(lambda: run(St, lambda a: tt(env, a)))
+    rt = env.run(lambda: run(St, lambda a: tt(env, a, kind)))
     env.goal('numpy_side_no_exception', b_not(rn.raised))
     env.goal('torch_side_no_exception', b_not(rt.raised))
     if rn.value is None or rt.value is None:
@@ -451,6 +473,10 @@ def jobs(tier):
         for r in range(4):
             for name in ('stabilizer_expect', 'vectorizable_stabilizer_expect'):
                 J.append(dict(harness=('c13', 'h_state_kernel'), params=dict(N=3, r=r, name=name), timeout_s=900, max_paths=5000, cost=50))
+    # entropy of mixed states needs three qubits to have a generator outside the region next to one across the cut
+    for r in (0, 1, 2):
+        J.append(dict(harness=('c13', 'h_state_kernel'), params=dict(N=3, r=r, name='stabilizer_entropy'), timeout_s=600, max_paths=5000, cost=40))
+        J.append(dict(harness=('c13', 'h_state_ops'), params=dict(N=3, r=r, op='entropy'), timeout_s=600, max_paths=5000, cost=40))
     for N in (1, 2):
         for name in KERNELS:
             J.append(dict(harness=('c13', 'h_kernel'), params=dict(N=N, name=name), timeout_s=300, max_paths=3000))
@@ -476,6 +502,11 @@ def jobs(tier):
             if op == 'inverse' and N == 2:
                 continue            # torch pauli_combine forks on every bit of the inverse table (2^16 paths)
             J.append(dict(harness=('c13', 'h_map_ops'), params=dict(N=N, op=op), timeout_s=300))
+        for kind in ('f', 'i'):
+            J.append(dict(harness=('c13', 'h_map_ops'), params=dict(N=N, op='compose_history' if N == 1 else 'compose_operands', kind=kind), timeout_s=300, cost=10))
+            if N == 1:
+                J.append(dict(harness=('c13', 'h_map_ops'), params=dict(N=N, op='inverse_history', kind=kind), timeout_s=300, cost=10))
+        J.append(dict(harness=('c13', 'h_map_ops'), params=dict(N=N, op='compose', kind='i'), timeout_s=300))
         for which in ('zero_state', 'one_state', 'ghz_state', 'maximally_mixed_state', 'identity_map'):
             J.append(dict(harness=('c13', 'h_constructors'), params=dict(N=N, which=which)))
     progs = [(2, [['gen', [0, 1]]]), (2, [['gen', [1]], ['gen', [0, 1]]]), (2, [['fmap', [0]], ['gen', [0, 1]]]), (2, [['gen', [0]], ['gen', [1]], ['gen', [0, 1]]]),
